@@ -52,6 +52,27 @@ def mk_reactor(symmetry="third periodic", pitch=16.2, numRings=3, sfp=False):
     return r, core, pool
 
 
+class SettingsView:
+    """Case settings in which some entries are replaced (e.g. 'trackAssems' by a symbolic bool); every other key is
+    answered by a real default Settings object.  Meant for Core.setOptionsFromCs, which only reads cs[key]."""
+
+    def __init__(self, cs, **overrides):
+        self._cs = cs
+        self._overrides = overrides
+
+    def __getitem__(self, key):
+        if key in self._overrides:
+            return self._overrides[key]
+        return self._cs[key]
+
+
+def add_pool_resident(pool, name="spent"):
+    """One assembly that already sits in the spent fuel pool (put there through SpentFuelPool.add)."""
+    a = mk_assembly(("fuel",), name=name)
+    pool.add(a)
+    return a
+
+
 def inject_densities(ctx, a, tag, lo=0.0, hi=10.0, nucs=NUCS):
     """Symbolic number densities: U235/U238 in the fuel, FE in the duct, NA in the inter-assembly gap (those listed
     in nucs), for every block of assembly a.  Returns {(blockIndex, nuclide): proxy}."""
